@@ -52,7 +52,8 @@ for d in sorted(os.listdir(os.path.join(ROOT, "seeded"))):
     prop = d.split("-")[0].rstrip("bc")
     subprocess.check_call(["git", "-C", "/repo", "apply", os.path.join(p, "patch.diff")])
     try:
-        r = subprocess.run([os.path.join(ROOT, "check"), prop, "quick"], capture_output=True, text=True, cwd=ROOT)
+        r = subprocess.run([os.path.join(ROOT, "check"), prop, "quick"], capture_output=True, text=True, cwd=ROOT,
+                           env={**os.environ, "PVC_EVIDENCE_DIR": "/tmp/pvc_seeded_evidence"})
     finally:
         subprocess.check_call(["git", "-C", "/repo", "checkout", "--", "."])
     viol = [re.sub(r".*replay=\S*/", "", l) for l in r.stdout.splitlines() if l.startswith("VIOLATION")]
